@@ -1,4 +1,5 @@
-SPECIFICATION MCSpec
+SPECIFICATION FamSpec
+CONSTANT Fam = "isr"
 CONSTANTS
   R = {"a", "b", "c"}
   MinISR = 2
@@ -8,17 +9,17 @@ CONSTANTS
   LateResp = "drop"
   HWFallback = FALSE
   ElectAlive = TRUE
-  AllowLag = FALSE
+  AllowLag = TRUE
   ElectDown = FALSE
-  MaxMsgs = 6
+  MaxMsgs = 5
   MaxElect = 3
   MaxCrash = 3
   MaxIsrOps = 3
-  MaxRejects = 2
+  MaxRejects = 1
   Policies = {"ALL", "LEADER", "NONE"}
   UseCheckpoint = TRUE
-  MaxPause = 0
-  MaxHold = 0
-  Batch = 2
+  MaxPause = 1
+  MaxHold = 2
+  Batch = 1
   IgnoreTaints = TRUE
 CHECK_DEADLOCK FALSE
